@@ -61,3 +61,15 @@ PROPS["C19"] = {
                    "every finite history are lemmas over those postconditions only.",
     "assumptions": [],
 }
+
+PROPS["C09"] = {
+    "title": "Grammar tables are total, unique and match the Khronos grammar",
+    "units": {"quick": ["table_core", "table_glsl", "table_opencl"], "thorough": ["table_core", "table_glsl", "table_opencl"]},
+    "level": "proof",
+    "technique": "Verus: every row of the three real tables lifted to spec mode and checked by by(compute_only) lemmas (position, well-formedness, O4 snapshot); lookup_opcode/get extracted and proved against the table lemmas",
+    "design_ref": "DESIGN.md §4 C09",
+    "explanation": "Each of the 787+81+166 rows is the real row text placed in spec mode; per-row lemmas evaluated by the Verus interpreter "
+                   "establish well-formedness and the row's position, chunk lemmas derive uniqueness and totality for all 2^16/2^32 numbers, "
+                   "and the real lookup_opcode/get bodies are proved against them through the closure they pass to find().",
+    "assumptions": [],
+}
